@@ -413,12 +413,17 @@ struct Ed<'a> {
 
 impl<'a> Ed<'a> {
     /// `@@closure k ~text`: prefer the innermost closure that contains the text
-    fn resolve_closure_prefs(&mut self, block: &syn::Block) {
+    fn resolve_closure_prefs(&mut self, block: Option<&syn::Block>, expr: Option<&syn::Expr>) {
         if self.dir.closures_pref.is_empty() {
             return;
         }
         let mut cl = ClosureLister { all: vec![] };
-        cl.visit_block(block);
+        if let Some(b) = block {
+            cl.visit_block(b);
+        }
+        if let Some(e) = expr {
+            cl.visit_expr(e);
+        }
         let mut res: HashMap<usize, (usize, String)> = HashMap::new();
         for (n, (k, anchor, h)) in self.dir.closures_pref.iter().enumerate() {
             let cands: Vec<usize> = (0..cl.all.len())
@@ -1483,7 +1488,7 @@ fn main() {
                 }
                 let mut ed = Ed::new(&src.text, d);
                 if d.hoist.is_none() && !d.is_slice {
-                    ed.resolve_closure_prefs(f.block);
+                    ed.resolve_closure_prefs(Some(f.block), None);
                 }
                 let mut counts: BTreeMap<String, usize> = BTreeMap::new();
                 let emitted: String;
@@ -1510,17 +1515,40 @@ fn main() {
                             hpre = hpre.replace(&format!("${k}"), &name);
                         }
                     }
+                    ed.resolve_closure_prefs(None, Some(&c.body));
                     ed.visit_expr(&c.body);
                     ed.finish_cfg();
                     check_used(&ed, d, &ctx);
                     let br = c.body.span().byte_range();
-                    let body = apply_edits(&src.text, br.start, br.end, &ed.edits, &mut counts).unwrap_or_else(|e| die(&format!("{ctx}: {e}")));
+                    let mut body = apply_edits(&src.text, br.start, br.end, &ed.edits, &mut counts).unwrap_or_else(|e| die(&format!("{ctx}: {e}")));
+                    // `$hk` (in headers of nested closures, in `@@letarg` / `@@post` text) = the name the
+                    // source gives to parameter k of the HOISTED closure
+                    let mut hpost = d.post.clone();
+                    for (k, p) in c.inputs.iter().enumerate() {
+                        let inner = match p {
+                            syn::Pat::Type(pt) => &*pt.pat,
+                            other => other,
+                        };
+                        if let syn::Pat::Ident(pi) = inner {
+                            body = body.replace(&format!("$h{k}"), &pi.ident.to_string());
+                            hpost = hpost.replace(&format!("$h{k}"), &pi.ident.to_string());
+                        }
+                    }
                     *counts.entry("E11-closure-hoisted".into()).or_insert(0) += 1;
-                    emitted = match &d.tail {
-                        // `@@tail name`: the closure body is bound, `@@post` follows, `name` is the result
-                        Some(tn) => format!("{sigt}\n{}{{\n{}        let {tn} = {};\n{}\n        {tn}\n}}\n", hspec, hpre, body, d.post),
-                        None => format!("{sigt}\n{}{{\n{}{}\n}}\n", hspec, hpre, body),
+                    let mkh = |sigt: &str, hspec: &str| -> String {
+                        match &d.tail {
+                            // `@@tail name`: the closure body is bound, `@@post` follows, `name` is the result
+                            Some(tn) => format!("{sigt}\n{}{{\n{}        let {tn} = {};\n{}\n        {tn}\n}}\n", hspec, hpre, body, hpost),
+                            None => format!("{sigt}\n{}{{\n{}{}\n}}\n", hspec, hpre, body),
+                        }
                     };
+                    let mut text = mkh(&sigt, &hspec);
+                    if canary && !d.nocanary && spec_has_requires(&hspec) && !hoist_name.is_empty() {
+                        let csig = replace_fn_name(&sigt, &hoist_name, &format!("{hoist_name}__canary"));
+                        text.push_str("// vx:canary — must FAIL: a verified canary means a contradictory precondition\n");
+                        text.push_str(&mkh(&csig, &canary_spec(&hspec)));
+                    }
+                    emitted = text;
                     src_range = (c.span().byte_range().start, br.end);
                 } else if d.is_slice {
                     let from = d.from.as_deref().unwrap_or_else(|| die(&format!("{ctx}: @@slice needs @@from")));
@@ -1739,7 +1767,7 @@ fn main() {
                 output.push_str(&text);
                 fn_maps.push(serde_json::json!({
                     "selector": d.selector, "file": d.file, "slice": d.is_slice,
-                    "name": d.name.clone().unwrap_or_else(|| f.sig.ident.to_string()),
+                    "name": if d.hoist.is_some() && !hoist_name.is_empty() { hoist_name.clone() } else { d.name.clone().unwrap_or_else(|| f.sig.ident.to_string()) },
                     "src_lines": [line_of(&src.text, src_range.0), line_of(&src.text, src_range.1)],
                     "out_lines": [l0, cur_line(&output)],
                     "awaits_erased": ed.awaits,
